@@ -13,10 +13,16 @@
 //!   a conflicting value on any field kind, or a copy of another transaction => Err in every order;
 //! * roles: the txid implied by the PCZT (`pczt_txid`, `into_effects`) equals the id computed from the
 //!   builder's parts, before and after every role in random order; thorough tier: prove + extract.
+//! * combine-structure (structure.rs): copies that differ in STRUCTURE (a harness-side Constructor adds
+//!   transparent inputs / outputs and shielded items at the wire level, obeying the modifiable flags) and
+//!   in the tx_modifiable flags (transparent signatures with all six sighash types, shielded signatures,
+//!   IO Finalizer); reference for the flags after every role, for the Combiner's verdict in every order
+//!   and bracketing, for the merged flags, the field-wise union, the id and the signatures of the result.
 
 mod base;
 mod bytes;
 mod recipe;
+mod structure;
 
 use std::collections::BTreeSet;
 use std::sync::Arc;
@@ -1438,7 +1444,7 @@ fn check_extract(ctx: &Ctx, c: &ExtractCase) -> CaseResult {
 // Regression list (fixed cases worth re-running forever)
 // ---------------------------------------------------------------------------------------------
 
-const N_REGRESSION: u64 = 14 + 14 + 3 + 1 + 6 + 2;
+const N_REGRESSION: u64 = 14 + 14 + 3 + 1 + 6 + 2 + structure::N_FIXED;
 
 fn check_regression(ctx: &Ctx, i: u64) -> CaseResult {
     use pczt::roles::redactor::Redactor;
@@ -1571,6 +1577,8 @@ fn check_regression(ctx: &Ctx, i: u64) -> CaseResult {
             }
             Ok(Obs::nontrivial().key(4000 + j).label("header"))
         }
+        // copies that differ in structure / modifiable flags (hand-written instances of `combine-structure`)
+        40..=47 => structure::check_fixed(ctx, i - 40),
         _ => Ok(Obs::trivial()),
     }
 }
@@ -1596,13 +1604,25 @@ fn main() {
          behind a valid header through check_pczt_bytes; non-trivial = copy differs from the base. roles: 3..12 role applications in \
          generated order (Updater, Signer, apply-signature, low-level Signer, Redactor, Combiner, Spend Finalizer, Verifier, byte round \
          trip, IO Finalizer again); non-trivial = >=3 different roles applied. prove-extract (thorough only): provers, signer and a \
-         redactor work on separate copies, combined in generated order, then extracted.",
+         redactor work on separate copies, combined in generated order, then extracted. combine-structure: one full transaction F per \
+         case = a builder base (its PCZT before IO finalization) or an empty Creator PCZT (25%), all modifiable flags set, plus 0..3 \
+         fabricated P2PKH inputs (generated keys) and 0..3 P2PKH/P2SH outputs, one generated sighash type per input (6 types; 40% of \
+         the cases one type for all inputs); 2..4 copies, each a position-wise prefix of F (own or common numbers of inputs, outputs and \
+         shielded items along one generated interleaving of Sapling spends/outputs and Orchard/Ironwood actions) followed by 0..5 steps \
+         of: harness Constructor add (input / output / shielded item; refused when the flag is cleared or a bsk exists), Signer on one \
+         or all transparent inputs with the input's sighash type, Signer on Sapling/Orchard/Ironwood spends, Updater, Redactor, IO \
+         Finalizer (one copy per case), byte round trip; 15%: one copy gets a different element (sighash type, prevout index, output \
+         value) at one position. All permutations plus 6 bracketings. Non-trivial = the copies differ in structure or flags and carry a \
+         signature; distinct = hash of the case.",
     );
     ctx.assume("the transaction id computed from the builder's PcztParts with the transparent / sapling / orchard crates' extract_effects and zcash_primitives' txid digests is the reference id (no pczt-crate code involved)");
     ctx.assume("roles may refuse (Err) when a field their documentation requires was redacted; a refusal is not a violation, a changed txid, a panic or a changed PCZT (Verifier, no-op signer) is");
     ctx.assume("effects are promised computable iff v5 bundles with content carry their anchor, a missing cv_net has both values and rcv, a missing cmx / memo-plaintext ciphertext has the output's recipient, value and rseed, and an Orchard spend rseed is accompanied by its rho (orchard crate ParseError::MissingRho)");
     ctx.assume("the verdict does not depend on signature / proof bytes produced with OsRng inside the roles (IoFinalizer dummy signatures, Signer::sign_*, Prover); signatures compared across copies are produced once per (base, spend, variant) with a seeded RNG");
     ctx.assume("compact_resolvable_fields / decrypted memo recovery may leave undecryptable (padding) outputs unchanged, as documented; which outputs those are is observed once per base");
+    ctx.assume("combine-structure: the crate implements no Constructor role (pczt/src/roles.rs); the harness plays it on the v2 wire encoding (generic serde tree of pczt::v2::Pczt, written back as postcard, self-checked byte for byte against the crate's serialisation) and follows the rustdoc of Global::tx_modifiable: add inputs / outputs / shielded items only while the respective flag is set, never once a bsk exists; value sums are the running sums of the items' values");
+    ctx.assume("combine-structure reference: copies conflict iff one has fewer inputs (outputs, shielded items) than another while its own flag forbids modification ('Fail if the merge would add inputs to a non-modifiable bundle'), or one wire field carries two different values; merged flags = and / and / or / and (rustdoc 'The Combiner merges this bit towards false / true'); an IO-finalized bundle (bsk) next to a copy with another number of items of that bundle is outside the reference (Bundle::merge refuses that pair but accepts the same set in other groupings): results are checked, the verdict is not");
+    ctx.assume("signature hashes for verification are computed by zcash_primitives' v5/v6 signature_hash over the effects `into_effects` returns and zcash_transparent's with_signable_input; SIGHASH_SINGLE is only used on inputs that have a corresponding output");
     let only = std::env::var("C13_ONLY").ok();
     let want = |s: &str| only.as_deref().map_or(true, |o| o == s);
     if want("regression") {
@@ -1612,6 +1632,10 @@ fn main() {
     if want("combine") {
         let c2 = ctx.clone();
         ctx.run_prop("combine", arb_combine_case, ctx.tier.pick(3_000, 150_000), move |c| check_combine(&c2, c));
+    }
+    if want("combine-structure") {
+        let c2 = ctx.clone();
+        ctx.run_prop("combine-structure", structure::arb_struct_case, ctx.tier.pick(2_400, 120_000), move |c| structure::check_structure(&c2, c));
     }
     if want("encoding") {
         let c2 = ctx.clone();
@@ -1635,6 +1659,42 @@ fn main() {
         ctx.require_label_fraction("combine", "has-spend-finalizer-copy", 0.05);
         ctx.require_label_fraction("combine", "with-roundtripped-copy", 0.15);
         ctx.require_min_count("combine", "conflict-foreign-tx", 30);
+        for (label, min) in [
+            ("combined", 0.25),
+            ("conflict", 0.2),
+            ("flags:in-open-out-open", 0.4),
+            ("flags:in-frozen-out-open", 0.06),
+            ("flags:in-open-out-frozen", 0.09),
+            ("flags:in-frozen-out-frozen", 0.15),
+            ("flags:has-sighash-single", 0.08),
+            ("flags:shielded-mixed", 0.25),
+            ("copy-extended-by-constructor", 0.3),
+            ("copies-differ-in-structure", 0.4),
+            ("copies-differ-in-shielded-structure", 0.2),
+            ("combine-larger-into-frozen", 0.18),
+            ("conflict:structural-transparent", 0.12),
+            ("conflict:structural-shielded", 0.07),
+            ("conflict:data", 0.02),
+            ("combined-different-structures", 0.2),
+            ("combine-larger-into-open-with-frozen-other-side", 0.09),
+            ("sighash:all", 0.07),
+            ("sighash:none", 0.07),
+            ("sighash:single", 0.04),
+            ("sighash:all-anyonecanpay", 0.06),
+            ("sighash:none-anyonecanpay", 0.06),
+            ("sighash:single-anyonecanpay", 0.04),
+            ("result-signatures-checked", 0.13),
+            ("result-txid-checked", 0.28),
+            ("io-finalized-copy", 0.03),
+            ("shielded-signature", 0.02),
+            ("base:creator", 0.1),
+            ("tx-v5", 0.2),
+            ("tx-v6", 0.2),
+        ] {
+            ctx.require_label_fraction("combine-structure", label, min);
+        }
+        ctx.require_min_count("combine-structure", "copy-txid-checks", 3_000);
+        ctx.require_min_count("combine-structure", "constructor-refused-by-flags", 100);
         ctx.require_label_fraction("encoding", "encoded-v1", 0.15);
         ctx.require_label_fraction("encoding", "encoded-v2", 0.3);
         ctx.require_label_fraction("encoding", "v5-forced-to-v2", 0.03);
